@@ -1,4 +1,6 @@
 import GBModel.Assemble
+import GBModel.Eval
+import GBModel.OneElec
 /-!
 # Line protocol of the model executable
 
@@ -21,10 +23,10 @@ def natTok : P Nat := do
   | some n => pure n
   | none => throw s!"nat expected: {t}"
 
-def bfTok : P BF := do
+def bfTok : P BM := do
   let t ← tok
   match BF.parse? t with
-  | some x => pure x
+  | some x => pure (BM.ofBF x)
   | none => throw s!"number expected: {t}"
 
 def rep {α} (n : Nat) (p : P α) : P (Array α) := do
@@ -37,7 +39,7 @@ def compTok : P Comp := do
   let x ← natTok; let y ← natTok; let z ← natTok
   pure (x, y, z)
 
-def shellTok : P (Shell BF) := do
+def shellTok : P (Shell BM) := do
   let l ← natTok
   let sph ← natTok
   let k ← natTok
@@ -62,18 +64,24 @@ def shellTok : P (Shell BF) := do
         | some ls => pure ls
         | none => throw "ValueError"
       | none => throw "bad sph order")
-  pure { l := l, ctr := fun i => c.getD i 0, exps := exps, coefs := coefs, sph := sph == 1,
+  pure { l := l, ctr := fun i => c.getD i (Num.nat 0), exps := exps, coefs := coefs, sph := sph == 1,
          cart := cart, sphOrd := sphOrd, unitNorm := un == 1 }
 
-def basisTok : P (Basis BF) := do
+def basisTok : P (Basis BM) := do
   let n ← natTok
   rep n shellTok
 
-def fmt (dims : List Nat) (vals : Array BF) : String :=
+/-- reply: dims, values, then `|` and the magnitude majorants -/
+def fmt (dims : List Nat) (vals : Array BM) : String :=
   let hd := s!"ok {dims.length} " ++ " ".intercalate (dims.map toString)
-  vals.foldl (fun acc v => acc ++ " " ++ v.toStr) hd
+  let a := vals.foldl (fun acc v => acc ++ " " ++ v.v.toStr) hd
+  vals.foldl (fun acc v => acc ++ " " ++ v.g.toStr) (a ++ " |")
 
-def one4 (t : Tab4 BF) : Tab (Tab4 BF) := tab 1 fun _ => t
+def one4 (t : Tab4 BM) : Tab (Tab4 BM) := tab 1 fun _ => t
+
+/-- the Boys function handed to the model -/
+def boysBM (T : BM) (n : Nat) : Tab BM :=
+  ⟨(BF.boysAll T.v n).map BM.ofBF, fun _ => Num.nat 0⟩
 
 def handle : P String := do
   let op ← tok
@@ -81,7 +89,7 @@ def handle : P String := do
   | "ping" => pure "ok 0"
   | "num" => do  -- numeric self-test: sqrt, exp, pi
     let x ← bfTok
-    pure (fmt [3] #[BF.sqrt x, BF.exp x, BF.piVal])
+    pure (fmt [3] #[Transc.sqrt x, Transc.exp x, Transc.pi])
   | "overlap" => do
     let b ← basisTok
     let n := b.total
@@ -101,7 +109,7 @@ def handle : P String := do
     let orders ← rep nord compTok
     let n := b.total
     pure (fmt [n, n, nord] (assemble2 b b nord fun i j =>
-      momentBlock b[i]! b[j]! (fun ax => o.getD ax 0) orders.toList))
+      momentBlock b[i]! b[j]! (fun ax => o.getD ax (Num.nat 0)) orders.toList))
   | "momentum" => do
     let b ← basisTok
     let n := b.total
@@ -110,6 +118,29 @@ def handle : P String := do
     let b ← basisTok
     let n := b.total
     pure (fmt [n, n, 3] (assemble2 b b 3 fun i j => angmomBlock b[i]! b[j]!))
+  | "evalderiv" => do   -- back-end name, basis, points, orders
+    let dt ← tok
+    let b ← basisTok
+    let np ← natTok
+    let pts ← rep np (rep 3 bfTok)
+    let o ← compTok
+    match dispatch dt o with
+    | .error e => pure s!"err {e}"
+    | .ok be =>
+      let ptf : Array (Nat → BM) := pts.map fun p => fun ax => p.getD ax (Num.nat 0)
+      pure (fmt [b.total, np] (assemble1 b np fun i => evalBlock b[i]! be o ptf))
+  | "pointcharge" => do   -- basis, points, charges
+    let b ← basisTok
+    let np ← natTok
+    let pts ← rep np (rep 3 bfTok)
+    let qs ← rep np bfTok
+    let n := b.total
+    pure (fmt [n, n, np] (assemble2 b b np fun i j => tab np fun e =>
+      pointChargeBlock boysBM b[i]! b[j]! (fun ax => (pts.getD e #[]).getD ax (Num.nat 0)) (qs.getD e (Num.nat 0))))
+  | "boys" => do   -- T, mMax
+    let t ← bfTok
+    let mm ← natTok
+    pure (fmt [mm] ((BF.boysAll t.v mm).map BM.ofBF))
   | "trans" => do   -- l, Cartesian order, raw labels
     let l ← natTok
     let nc ← natTok
@@ -119,7 +150,7 @@ def handle : P String := do
     match validSphOrder l labs.toList with
     | none => pure "err ValueError"
     | some ls =>
-      let vals := ls.toArray.flatMap fun lab => cart.map fun c => (transEntry l lab c : BF)
+      let vals := ls.toArray.flatMap fun lab => cart.map fun c => (transEntry l lab c : BM)
       pure (fmt [ls.length, nc] vals)
   | "defaults" => do  -- default component orders of angular momentum l
     let l ← natTok
